@@ -437,6 +437,13 @@ const SPECIALS: &[(&str, Option<&str>)] = &[
     ("\"%g %g %g %g\" % [100000, 1000000, 0.0001, 0.00001]", Some("100000 1e+06 0.0001 1e-05")),
     ("\"%#g\" % 1", Some("1.00000")),
     ("\"%5%|\" % []", None),
+    // a negative `*` width is the `-` flag plus the positive width (C and Python agree)
+    ("\"%*d|\" % [-5, 3]", Some("3    |")),
+    ("\"%*s|%*x|\" % [-3, \"a\", -4, 255]", Some("a  |ff  |")),
+    ("\"%-*d|\" % [-5, 3]", Some("3    |")),
+    ("\"%0*d|\" % [-5, 3]", Some("3    |")),
+    ("\"%*d|\" % [0, 3]", Some("3|")),
+    ("\"%*.*f|\" % [-8, 2, 3.14159]", Some("3.14    |")),
 ];
 
 fn specials(total: &mut Report) {
@@ -451,7 +458,8 @@ fn specials(total: &mut Report) {
             (_, Outcome::Panic(m)) => total.violation(format!("C19/panic/{}", util::panic_site(m)), format!("`{src}`: {m}"), case),
             (Some(w), o) => {
                 if out_string(o).as_deref() != Some(*w) {
-                    total.violation("C19/special-case", format!("`{src}` should render {w:?} but gives {}", o.short()), case);
+                    let neg_star = src.contains('*') && src.contains("[-");
+                    total.violation(if neg_star { "C19/negative-star-width" } else { "C19/special-case" }, format!("`{src}` should render {w:?} but gives {}", o.short()), case);
                 }
             }
             (None, o) if src.contains("==") => {
